@@ -157,7 +157,7 @@ func runHistory(sc *scenario, rng *rand.Rand, db *faultkv.DB) (*recorder, []mexp
 }
 
 func run(r *ev.Run, cfg props.Cfg) {
-	nHist := cfg.Pick(200, 4000)
+	nHist := cfg.Pick(1500, 20000)
 	lvlFrac := cfg.Pick(10, 100) // percent of boundaries replayed on LevelDB
 	var wg sync.WaitGroup
 	per := (nHist + cfg.Workers - 1) / cfg.Workers
